@@ -201,9 +201,15 @@ def _runge_kutta(repo, out):
     ks, update = {}, None
     for kind, name, value in _assignments(fn):
         if kind == "=" and name in ("k1", "k2", "k3", "k4"):
+            if name in ks:
+                raise ExtractError(f"RK4 single_step: {name} assigned twice")
             ks[name] = _stage(value, {})
         elif kind == "+=" and name == "state_data":
+            if update is not None:
+                raise ExtractError("RK4 single_step: state_data updated twice")
             update = lin(value, {})
+        elif name in ("k1", "k2", "k3", "k4", "state_data"):
+            raise ExtractError(f"RK4 single_step: unexpected assignment to {name} ({kind})")
     if sorted(ks) != ["k1", "k2", "k3", "k4"] or update is None:
         raise ExtractError("RK4 single_step: stages k1..k4 / update of state_data not found")
     for i in range(1, 5):
@@ -233,11 +239,19 @@ def _runge_kutta(repo, out):
     ks, err, new = {}, None, None
     for kind, name, value in _assignments(fn):
         if kind == "=" and name in ("k1", "k2", "k3", "k4", "k5", "k6"):
+            if name in ks:
+                raise ExtractError(f"RKF45: {name} assigned twice")
             ks[name] = _stage(value, env)
         elif kind == "=" and name == "error_local":
+            if err is not None:
+                raise ExtractError("RKF45: error_local assigned twice")
             err = lin(value, env)
         elif kind == "=" and name == "state_new":
+            if new is not None:
+                raise ExtractError("RKF45: state_new assigned twice")
             new = lin(value, env)
+        elif name in ("k1", "k2", "k3", "k4", "k5", "k6", "error_local", "state_new"):
+            raise ExtractError(f"RKF45: unexpected assignment to {name} ({kind})")
     if len(ks) != 6 or err is None or new is None:
         raise ExtractError("RKF45: stages k1..k6 / error_local / state_new not found")
     knames = [f"k{i}" for i in range(1, 7)]
@@ -265,10 +279,16 @@ def _ab2_from(fn, prefix, out):
     prev_call = cur_call = upd = None
     for kind, name, value in _assignments(fn):
         if kind == "=" and name == "rhs_prev":
+            if prev_call is not None:
+                raise ExtractError(f"{prefix}: rhs_prev assigned twice")
             prev_call = value
         elif kind == "=" and name == "rhs_cur":
+            if cur_call is not None:
+                raise ExtractError(f"{prefix}: rhs_cur assigned twice")
             cur_call = value
         elif kind == "+=" and name == "state_data":
+            if upd is not None:
+                raise ExtractError(f"{prefix}: state_data updated twice")
             upd = lin(value, {})
     if prev_call is None or cur_call is None or upd is None:
         raise ExtractError(f"{prefix}: rhs_prev / rhs_cur / update of state_data not found")
